@@ -323,6 +323,10 @@ class PeriodicMessageTask:
         """
         self.bus = bus
         self.period = period
+        if data is not None:
+            # Do not alias the caller's buffer: update() detects a change by
+            # comparing the new data with the data held by the message
+            data = bytes(data)
         self.msg = can.Message(is_extended_id=can_id > 0x7FF,
                                arbitration_id=can_id,
                                data=data, is_remote_frame=remote)
